@@ -458,6 +458,7 @@ type BackendReq struct {
 	Frames       []Frame
 	Msgs         [][]byte // uncompressed, codec-encoded payloads, in order
 	MsgWasComp   []bool
+	MsgBad       []bool // flagged/declared compressed but not decompressible: unreadable
 	GetQuery     url.Values
 	Complaints   []Complaint
 	AppHeaders   http.Header
@@ -532,7 +533,11 @@ func ClassifyRequest(method string, u *url.URL, h http.Header) (f Form, codec st
 	if method == http.MethodGet && q.Get("connect") == "v1" {
 		return ConnectGet, q.Get("encoding"), cs
 	}
-	if h.Get("Connect-Protocol-Version") == "1" && strings.HasPrefix(base, "application/") && method == http.MethodPost {
+	// (a Connect unary request addresses /<qualified service>/<method>; a REST path with a stray
+	// Connect-Protocol-Version header is still a REST request)
+	seg := strings.Split(strings.TrimPrefix(u.Path, "/"), "/")
+	rpcPath := len(seg) == 2 && strings.Contains(seg[0], ".") && seg[1] != ""
+	if h.Get("Connect-Protocol-Version") == "1" && strings.HasPrefix(base, "application/") && method == http.MethodPost && rpcPath {
 		return ConnectUnary, strings.TrimPrefix(base, "application/"), cs
 	}
 	if base == "application/json" || base == "" {
@@ -606,8 +611,8 @@ func ParseBackendRequest(method string, u *url.URL, h http.Header, contentLength
 		if len(body) != 0 {
 			cs.add("req.get.body", "Connect GET carries %d body bytes", len(body))
 		}
-		if v := h.Get("Content-Encoding"); v != "" && v != "identity" {
-			cs.add("req.contradicting-header", "Content-Encoding %q on a Connect GET request", v)
+		if v := h.Get("Content-Encoding"); v != "" && v != "identity" && v != q.Get("compression") {
+			cs.add("req.contradicting-header", "Content-Encoding %q on a Connect GET request whose query says compression=%q", v, q.Get("compression"))
 		}
 	case REST:
 		r.Compression = h.Get("Content-Encoding")
@@ -638,17 +643,21 @@ func ParseBackendRequest(method string, u *url.URL, h http.Header, contentLength
 			}
 			payload := fr.Payload
 			wasComp := fr.Flags&1 != 0
-			if wasComp {
+			bad := false
+			if wasComp && len(payload) > 0 { // (an empty payload needs no decompression; peers differ on flagging it)
 				if comp == nil {
 					cs.add("req.envelope.compressed-without-encoding", "frame %d has the compressed flag but no compression is declared", i)
+					bad = true
 				} else if dec, err := comp.Decompress(payload); err != nil {
 					cs.add("req.envelope.bad-compressed-payload", "frame %d is flagged compressed but is not valid %s: %v", i, comp.Name, err)
+					bad = true
 				} else {
 					payload = dec
 				}
 			}
 			r.Msgs = append(r.Msgs, payload)
 			r.MsgWasComp = append(r.MsgWasComp, wasComp)
+			r.MsgBad = append(r.MsgBad, bad)
 		}
 	case f == ConnectGet:
 		q := r.GetQuery
@@ -674,19 +683,23 @@ func ParseBackendRequest(method string, u *url.URL, h http.Header, contentLength
 		}
 		r.Msgs = [][]byte{msg}
 		r.MsgWasComp = []bool{comp != nil}
+		r.MsgBad = []bool{false}
 		r.BodyComplete = true
 	default: // flat body
 		payload := body
+		bad := false
 		if comp != nil && len(body) > 0 {
 			dec, err := comp.Decompress(body)
 			if err != nil {
 				cs.add("req.flat.bad-compressed-body", "body declared %s but does not decompress: %v", comp.Name, err)
+				bad = true
 			} else {
 				payload = dec
 			}
 		}
 		r.Msgs = [][]byte{payload}
 		r.MsgWasComp = []bool{comp != nil}
+		r.MsgBad = []bool{bad}
 		r.BodyComplete = true
 	}
 	r.Complaints = cs
@@ -1061,6 +1074,7 @@ type ClientResp struct {
 	Accept      []string
 	Msgs        [][]byte // uncompressed codec-encoded payloads
 	MsgWasComp  []bool
+	MsgBad      []bool // declared/flagged compressed but not decompressible: unreadable
 	End         End  // Code 0 = OK
 	EndSeen     int  // number of terminal dispositions found
 	BareHTTP    bool // a plain HTTP error response not in the RPC protocol
@@ -1232,11 +1246,14 @@ func ParseClientResponse(form Form, status int, h http.Header, body []byte, trai
 			if r.EndSeen > 0 {
 				cs.add("resp.data-after-end", "frame %d (flags %#x, %d bytes) follows the end of the stream", i, fr.Flags, len(fr.Payload))
 			}
-			if fr.Flags&1 != 0 {
+			bad := false
+			if fr.Flags&1 != 0 && len(payload) > 0 { // (an empty payload needs no decompression; peers differ on flagging it)
 				if comp == nil {
 					cs.add("resp.envelope.compressed-without-encoding", "frame %d has the compressed flag but no (known) compression is declared", i)
+					bad = true
 				} else if dec, err := comp.Decompress(payload); err != nil {
 					cs.add("resp.envelope.bad-compressed-payload", "frame %d flagged compressed is not valid %s: %v", i, comp.Name, err)
+					bad = true
 				} else {
 					payload = dec
 				}
@@ -1244,6 +1261,7 @@ func ParseClientResponse(form Form, status int, h http.Header, body []byte, trai
 			if !isEnd {
 				r.Msgs = append(r.Msgs, payload)
 				r.MsgWasComp = append(r.MsgWasComp, fr.Flags&1 != 0)
+				r.MsgBad = append(r.MsgBad, bad)
 				continue
 			}
 			r.EndSeen++
@@ -1334,6 +1352,7 @@ func ParseClientResponse(form Form, status int, h http.Header, body []byte, trai
 				dec, err := comp.Decompress(body)
 				if err != nil {
 					cs.add("resp.flat.bad-compressed-body", "body declared %s but does not decompress: %v", comp.Name, err)
+					r.MsgBad = []bool{true}
 				} else {
 					payload = dec
 				}
@@ -1341,6 +1360,9 @@ func ParseClientResponse(form Form, status int, h http.Header, body []byte, trai
 		}
 		r.Msgs = [][]byte{payload}
 		r.MsgWasComp = []bool{r.Compression != ""}
+		if r.MsgBad == nil {
+			r.MsgBad = []bool{false}
+		}
 	case ConnectStream:
 		r.Compression = h.Get("Connect-Content-Encoding")
 		r.Accept = splitList(h.Values("Connect-Accept-Encoding"))
@@ -1428,6 +1450,7 @@ func ParseClientResponse(form Form, status int, h http.Header, body []byte, trai
 				dec, err := comp.Decompress(body)
 				if err != nil {
 					cs.add("resp.flat.bad-compressed-body", "body declared %s but does not decompress: %v", comp.Name, err)
+					r.MsgBad = []bool{true}
 				} else {
 					raw = dec
 				}
@@ -1436,6 +1459,9 @@ func ParseClientResponse(form Form, status int, h http.Header, body []byte, trai
 		if status/100 == 2 {
 			r.Codec = "json"
 			r.Msgs = [][]byte{raw}
+			if r.MsgBad == nil {
+				r.MsgBad = []bool{false}
+			}
 			return finish()
 		}
 		var st statuspb.Status
